@@ -700,4 +700,4 @@ func valID(v ssa.Value) string {
 	return fmtPtr(v)
 }
 
-func fmtPtr(v ssa.Value) string { return ptrString(v) }
+func fmtPtr(v ssa.Value) string { return fmt.Sprintf("%p", v) }
